@@ -16,8 +16,8 @@
   * `C19_statement`     — the full statement (false today: `C19_statement_fails_today`);
     `C19_partial`       — the statement for declarations that avoid exactly the listed finding rows;
     `unsafe_rows_have_counterexamples` — for EVERY unsafe in-scope row of the table a kernel-checked history
-                          (operation, one poke, observation differs); `oneOf_retains_argument` is one of them
-                          written out.  `fixed_rows_*`, `fast_serialization_fresh_today`: the rows repaired by
+                          (operation, one poke, observation differs); `anyOf_misfit_hands_out_stored` is one of them
+                          written out; `oneOf_keeps_a_copy_today`: a former one, now positive.  `fixed_rows_*`, `fast_serialization_fresh_today`: the rows repaired by
                           typedpy commits 5e8a8ad / d7f6fe4 now carry positive theorems.
 -/
 import TypedpyModel.Lemmas.Alias
@@ -173,6 +173,111 @@ theorem setattr_value_fresh (M : Kind → Cat → Mode) (fuel : Nat) (s : Shape)
     observeN n (runScript h1 K acts).1 v' = observeN n h1 v' :=
   retained_fresh_observe M fuel s hs h v h1 v' e cb K hK acts adm n
 
+/-- **setattr, joint separation**: the declaration's sites all copy, the value graph the caller passes (roots `K`)
+    is separate from the instance (`K` reaches nothing the instance reaches) ⇒ after `inst.name = value` NO script of
+    native mutations from the caller's value changes ANY observation of the instance — the assigned field and all
+    the other fields, to any depth. -/
+theorem setattr_separation (M : Kind → Cat → Mode) (fuel : Nat) (s : Shape) (hs : safeShape M s = true)
+    (h : Heap) (inst : Nat) (name : String) (v : Item) (h2 : Heap)
+    (e : setattrOp M fuel s h inst name v = (h2, some ()))
+    (cb : ClosedBelow h.next h) (hi : inst < h.next)
+    (K : List Nat) (hK : ∀ r, r ∈ K → r < h.next) (sep : ∀ a, Held h K a → ¬ Reach h inst a)
+    (acts : List Act) (adm : AdmissibleAll h2 K acts) (n : Nat) :
+    observeN n (runScript h2 K acts).1 (.ref inst) = observeN n h2 (.ref inst) := by
+  simp only [setattrOp] at e
+  cases ht : transfer M fuel s h v with
+  | mk h1 o =>
+    rw [ht] at e
+    cases o with
+    | none => simp at e
+    | some v' =>
+      simp only [Prod.mk.injEq, and_true] at e
+      have fr := transfer_frame M fuel s h v h1 _ ht
+      have fs := transfer_fresh h.next M fuel s hs h v h1 v' (Nat.le_refl _)
+        (fun _ ha hlt => absurd (Nat.lt_of_lt_of_le hlt ha) (Nat.lt_irrefl _)) ht
+      have hnext : h2.next = h1.next := by rw [← e]; rfl
+      -- cells of h2
+      have cellInst : h2.cells inst = ⟨(h1.cells inst).tag, setItem name v' (h1.cells inst).items⟩ := by
+        rw [← e]; simp [Heap.write]
+      have cellOther : ∀ b, b ≠ inst → h2.cells b = h1.cells b := by
+        intro b hb; rw [← e]; simp only [Heap.write]; rw [if_neg hb]
+      have cellOld : ∀ b, b ≠ inst → b < h.next → h2.cells b = h.cells b := by
+        intro b hb hlt; rw [cellOther b hb, fr.2 b hlt]
+      -- what the caller holds afterwards is what it held before
+      have heldOld : ∀ a, Held h2 K a → Held h K a := by
+        intro a ha
+        obtain ⟨r, hr, ra⟩ := ha
+        refine ⟨r, hr, c19_reach_transport (h := h) (h2 := h2) ?_ ra⟩
+        intro b rb
+        have hb : b < h.next := reach_below cb (hK r hr) rb
+        have ne : b ≠ inst := by
+          intro eq
+          exact sep b ⟨r, hr, rb⟩ (by rw [eq]; exact Reach.refl _)
+        exact cellOld b ne hb
+      -- what the instance reaches afterwards: what it reached before, or the freshly built value
+      have instReach : ∀ a, Reach h2 inst a → Reach h inst a ∨ (h.next ≤ a ∧ a < h1.next) := by
+        intro a ra
+        induction ra with
+        | refl => exact Or.inl (Reach.refl _)
+        | @step b c _ hk ih =>
+          cases ih with
+          | inr hnew =>
+            have nb : b ≠ inst := fun eq => absurd hi (by rw [← eq]; exact Nat.not_lt.mpr hnew.1)
+            rw [cellOther b nb] at hk
+            exact Or.inr (fs.1 b hnew.1 hnew.2 c hk)
+          | inl hold =>
+            by_cases eb : b = inst
+            · subst eb
+              rw [cellInst] at hk
+              cases c19_kids_setItem _ name v' _ c hk with
+              | inl h3 =>
+                have : c ∈ (h.cells b).kids := by
+                  rw [← fr.2 b hi]
+                  exact h3
+                exact Or.inl (Reach.step hold this)
+              | inr h3 => exact Or.inr (fs.2 c h3)
+            · have hb : b < h.next := reach_below cb hi hold
+              rw [cellOld b eb hb] at hk
+              exact Or.inl (Reach.step hold hk)
+      have sp := script_protects (fun a => Reach h2 inst a) acts h2 K
+        (by
+          intro a ha hp
+          have hold := heldOld a ha
+          cases instReach a hp with
+          | inl h3 => exact sep a hold h3
+          | inr h3 =>
+            obtain ⟨r, hr, ra⟩ := hold
+            exact absurd (reach_below cb (hK r hr) ra) (Nat.not_lt.mpr h3.1))
+        (by
+          intro a hp
+          rw [hnext]
+          cases instReach a hp with
+          | inl h3 => exact Nat.lt_of_lt_of_le (reach_below cb hi h3) fr.1
+          | inr h3 => exact h3.2)
+        adm
+      apply observe_agree (fun a => Reach h2 inst a) (fun a ha => sp.1 a ha)
+        (fun a ha k hk => Reach.step ha hk) n
+      intro a ea
+      simp only [Item.ref.injEq] at ea
+      subst ea
+      exact Reach.refl _
+
+
+/-- non-vacuity of `setattr_separation`, kernel-evaluated on today's table: instance cell 0 (field "a" -> list cell 1),
+    the caller assigns its own list (cell 2, holding list cell 3) to the Array[Array[Integer]] field "f"; emptying both
+    of the caller's lists afterwards leaves every observation of the instance as it was -/
+theorem setattr_separation_example :
+    let h0 := Heap.ofList [⟨"inst", [("a", .ref 1)]⟩, ⟨"list", [("0", .atom 2)]⟩,
+                           ⟨"list", [("0", .ref 3)]⟩, ⟨"list", [("0", .atom 2)]⟩]
+    let s := Shape.coll .array (.coll .array (.scalar .number))
+    (match setattrOp (modeOf Generated.aliasing .setattr) 9 s h0 0 "f" (.ref 2) with
+     | (h2, some ()) =>
+       safeShape (modeOf Generated.aliasing .setattr) s &&
+       (observeN 5 (runScript h2 [2] [.write 2 ⟨"list", []⟩, .write 3 ⟨"list", []⟩]).1 (.ref 0)).beq (observeN 5 h2 (.ref 0)) &&
+       (reachList 5 h2 (.ref 0)).length == 4
+     | _ => false) = true := by
+  decide +kernel
+
 /-! ## part 3 — the table -/
 
 def TablesOk (tbl : List AliasRow) : Prop := ∀ r, r ∈ tbl → (r.safe || !r.inScope || isKnown r) = true
@@ -250,10 +355,12 @@ theorem safeShape_of_sites (tbl : List AliasRow) (op : OpK) :
   | .wrapN k p opts, h => by
     simp only [sitesOf, List.all_cons] at h
     have h' := and_true_split h
-    simp only [safeShape, modeOf_copies h'.1, safeOpts_of_sites tbl op k opts h'.2, Bool.and_self]
+    have hfb : (modeOf tbl op (fallbackSite k p opts).1 (fallbackSite k p opts).2).copies = true :=
+      modeOf_copies (k := (fallbackSite k p opts).1) (c := (fallbackSite k p opts).2) h'.1
+    simp only [safeShape, hfb, safeOpts_of_sites tbl op k opts h'.2, Bool.and_self]
   | .owned s, h => by
-    simp only [sitesOf] at h
-    simp only [safeShape, safeShape_of_sites tbl op s h]
+    simp only [sitesOf, List.all_cons] at h
+    simp only [safeShape, safeShape_of_sites tbl op s (and_true_split h).2]
 theorem safeOpts_of_sites (tbl : List AliasRow) (op : OpK) (k : Kind) :
     (opts : List Shape) → (sitesOfOpts k opts).all (siteOk tbl op) = true → safeOpts (modeOf tbl op) k opts = true
   | [], _ => by simp [safeOpts]
@@ -363,12 +470,14 @@ def witnessItem : Cat → Shape
   | .struct => .keyed .struct [("x", .scalar .number)]
   | .inline => .keyed .inline [("x", .scalar .number)]
   | .wrap => .wrap .anyOf (.coll .array (.scalar .number))
+  | .enum => .scalar .enum
   | _ => .scalar .scalar
 
 def witnessShape (k : Kind) (c : Cat) : Shape :=
   match k with
   | .array | .deque | .set | .immSet | .tuple | .map => .coll k (witnessItem c)
   | .anyOf | .oneOf | .allOf | .notF => .wrap k (witnessItem c)
+  | .misfit => .wrapN .anyOf (.fixed 0) [match c with | .coll => .coll .map (.scalar .number) | _ => witnessItem c]
   | .any => .any
   | .document | .mapping | .names | .required | .enumValues | .default | .schema | .fieldState => .wrap k .any
   | _ => .keyed k [("x", .scalar .number)]
@@ -438,54 +547,57 @@ theorem reachList_sound (h : Heap) : ∀ (n : Nat) (i : Item) (b : Nat), b ∈ r
           | refl => exact base
           | step _ hk' ih' => exact Reach.step ih' hk'
 
-/-- an open finding as an explicit history: constructing with `OneOf[Array[Integer], …]` keeps the caller's
-    list (cell 1, which the caller reaches from the kwargs it passed, cell 0); clearing that list afterwards
-    empties the new instance's field -/
-theorem oneOf_retains_argument :
+/-- a former explicit counterexample, now positive (typedpy commit 89fd84a): constructing with
+    `OneOf[Array[Integer], …]` no longer keeps the caller's list (cell 1) — clearing that list afterwards leaves the new
+    instance as it was -/
+theorem oneOf_keeps_a_copy_today :
     let s := Shape.keyed .root [("f", .wrap .oneOf (.coll .array (.scalar .number)))]
     let out := transfer (modeOf Generated.aliasing .construct) 5 s witnessHeap (.ref 0)
     ∃ inst, out.2 = some inst ∧
-      Held out.1 [0] 1 ∧
-      observeN 3 (runScript out.1 [0] [.write 1 ⟨"list", []⟩]).1 inst ≠ observeN 3 out.1 inst := by
-  refine ⟨.ref 2, by decide +kernel, reachList_sound _ 3 (.ref 0) 1 (by decide +kernel), ?_⟩
-  intro h
-  have : (observeN 3 (runScript (transfer (modeOf Generated.aliasing .construct) 5
-      (Shape.keyed .root [("f", .wrap .oneOf (.coll .array (.scalar .number)))]) witnessHeap (.ref 0)).1 [0]
-      [.write 1 ⟨"list", []⟩]).1 (.ref 2)).beq
-      (observeN 3 (transfer (modeOf Generated.aliasing .construct) 5
-      (Shape.keyed .root [("f", .wrap .oneOf (.coll .array (.scalar .number)))]) witnessHeap (.ref 0)).1 (.ref 2)) = false := by
-    decide +kernel
-  rw [h] at this
-  revert this
+      (reachList 4 out.1 inst).contains 1 = false ∧
+      (observeN 3 (runScript out.1 [0] [.write 1 ⟨"list", []⟩]).1 inst).beq (observeN 3 out.1 inst) = true := by
+  refine ⟨.ref 3, by decide +kernel, by decide +kernel, by decide +kernel⟩
+
+/-- OneOf / AllOf over every kind of container option (and with ALL their options): the statement holds today for
+    construction and assignment -/
+def oneOfShape : Shape :=
+  .keyed .root [("a", .wrapN .oneOf .firstFit [.coll .array (.scalar .number), .coll .map (.coll .array (.scalar .number)), .scalar .string]),
+                ("b", .wrapN .allOf .firstFit [.coll .array (.scalar .number)]),
+                ("c", .wrapN .oneOf .firstFit [.keyed .inline [("x", .scalar .number), ("l", .coll .array (.scalar .number))], .scalar .string]),
+                ("d", .coll .array (.wrapN .oneOf .firstFit [.wrapN .anyOf .firstFit [.coll .array (.scalar .number), .scalar .string], .scalar .number]))]
+
+theorem oneOf_allOf_fresh_today :
+    HoldsFor Generated.aliasing .construct oneOfShape ∧
+    HoldsFor Generated.aliasing .setattr (.wrapN .oneOf .firstFit [.coll .array (.scalar .number), .scalar .string]) ∧
+    HoldsFor Generated.aliasing .setattr (.wrapN .allOf .firstFit [.coll .map (.coll .array (.scalar .number))]) :=
+  ⟨C19_today _ _ (by decide +kernel), C19_today _ _ (by decide +kernel), C19_today _ _ (by decide +kernel)⟩
+
+/-- an open finding as an explicit history: `AnyOf[Array[Integer], Enum(values=…)]`; `<field>.serialize` of the stored
+    list (cell 1, which the instance, cell 0, refers to) hands the value to the Enum option, which returns it: the
+    "document" IS cell 1, and emptying it empties the instance's field -/
+def misfitShape : Shape := .wrapN .anyOf (.fixed 1) [.coll .array (.scalar .number), .scalar .enum]
+
+theorem anyOf_misfit_hands_out_stored :
+    let out := transfer (modeOf Generated.aliasing .fieldSerialize) 5 misfitShape witnessHeap (.ref 1)
+    out.2 = some (.ref 1) ∧
+      (runScript out.1 [1] [.write 1 ⟨"list", []⟩]).1.cells 1 ≠ witnessHeap.cells 1 ∧
+      (observeN 3 (runScript out.1 [1] [.write 1 ⟨"list", []⟩]).1 (.ref 0)).beq (observeN 3 out.1 (.ref 0)) = false := by
+  refine ⟨by decide +kernel, by decide +kernel, by decide +kernel⟩
+
+/-- the unsafe in-scope rows of today's table are exactly the listed ones -/
+theorem only_listed_rows_unsafe_today :
+    (Generated.aliasing.filter fun r => !r.safe && r.inScope).map (fun r => (r.op, r.kind, r.cat)) = knownRows := by
   decide +kernel
 
-theorem witnessHeap_closed : ClosedBelow witnessHeap.next witnessHeap := by
-  intro a ha k hk
-  have : a = 0 ∨ a = 1 := by
-    have : a < 2 := ha
-    omega
-  cases this with
-  | inl e =>
-    subst e
-    simp [witnessHeap, Heap.ofList, Cell.kids, Item.addr?] at hk
-    subst hk; decide
-  | inr e =>
-    subst e
-    simp [witnessHeap, Heap.ofList, Cell.kids, Item.addr?] at hk
-
-/-- the full statement is still false of today's code (OneOf / AllOf) -/
+/-- the full statement is still false of today's code (the misfit delegation of `AnyOf.serialize`) -/
 theorem C19_statement_fails_today : ¬ C19_statement Generated.aliasing := by
   intro st
-  have hf := st .construct (Shape.keyed .root [("f", .wrap .oneOf (.coll .array (.scalar .number)))])
-    (by decide +kernel) 5 witnessHeap (.ref 0) _ _ rfl
-  obtain ⟨inst, hres, held, ne⟩ := oneOf_retains_argument
-  apply ne
-  refine (hf.2 inst hres).2 witnessHeap_closed [0] ?_ [.write 1 ⟨"list", []⟩] ?_ 3
-  · intro x hx
-    simp only [List.mem_singleton] at hx
-    subst hx; decide
-  · simp only [AdmissibleAll, Admissible, and_true]
-    exact ⟨held, fun k hk => by simp [Cell.kids] at hk⟩
+  have hf := st .fieldSerialize misfitShape (by decide +kernel) 5 witnessHeap (.ref 1) _ _ rfl
+  obtain ⟨hres, hne, _⟩ := anyOf_misfit_hands_out_stored
+  apply hne
+  refine (hf.2 (.ref 1) hres).1 [.write 1 ⟨"list", []⟩] ?_ 1 (by decide)
+  simp only [AdmissibleAll, Admissible, and_true]
+  refine ⟨⟨1, by simp [roots], Reach.refl _⟩, fun k hk => by simp [Cell.kids] at hk⟩
 
 /-- what was the flagship finding now holds: fast serialization (and `<field>.serialize`) of scalar-item
     and untyped collections — Array[Integer], Array[String], untyped Array / Deque / Map, also nested — is
@@ -678,6 +790,19 @@ theorem firstFit_spec (h : Heap) (i : Item) : ∀ (opts : List Shape),
         simp only [List.getElem?_cons_succ] at e
         exact ih.2 s e
 
+/-- a fixed delegation hands the value to THAT option if the value fits it, and to no option otherwise (the `misfit`
+    site of that option's category: `fallbackSite`) -/
+theorem fixed_pick_spec (n : Nat) (opts : List Shape) (h : Heap) (i : Item) :
+    (pickIdx (.fixed n) opts h i = n ∧ ∃ s, opts[n]? = some s ∧ fits s h i = true) ∨
+    pickIdx (.fixed n) opts h i = opts.length := by
+  simp only [pickIdx]
+  cases ho : opts[n]? with
+  | none => exact Or.inr rfl
+  | some s =>
+    by_cases hf : fits s h i = true
+    · exact Or.inl ⟨by simp only [if_pos hf], s, rfl, hf⟩
+    · exact Or.inr (by simp only [if_neg hf])
+
 /-- `AnyOf[Array[Integer], Map[String, Array[Integer]], String]` with ALL its options, as the element of an
     Array, as a Map value and on its own, plus `Optional[Map | Array]`: admitted under construction, the Serializer
     and the Deserializer — whichever option each value takes, the statement holds -/
@@ -705,12 +830,12 @@ def oneOpts : Shape :=
 
 /-- non-vacuity, kernel-evaluated on today's table: the elements of ONE list take different options of
     `OneOf[Array, Map, String]` (the list the first, the dict the second, the string the third); under construction
-    today's OneOf keeps both containers (cells 2 and 3, and cell 4 below the dict) — and the very same declaration owned by
-    an ImmutableStructure keeps nothing of the caller's (7 fresh cells: the copy and what the fields rebuilt from it) -/
+    today's OneOf keeps none of the caller's containers (it stores a private deep copy), on a plain Structure as well
+    as owned by an ImmutableStructure -/
 theorem wrapN_owned_example :
     (match transfer (modeOf Generated.aliasing .construct) 9 (.keyed .root [("xs", .coll .array oneOpts)]) hetHeap (.ref 0) with
-     | (h', some res) => sameBelow 5 hetHeap h' && (reachList 6 h' res).contains 2 && (reachList 6 h' res).contains 3
-                          && (reachList 6 h' res).contains 4 && !(reachList 6 h' res).contains 1
+     | (h', some res) => sameBelow 5 hetHeap h' && (reachList 6 h' res).all (fun a => decide (5 ≤ a))
+                          && (reachList 6 h' res).length == 5
      | _ => false) = true ∧
     (match transfer (modeOf Generated.aliasing .construct) 9 (.keyed .root [("xs", .owned (.coll .array oneOpts))]) hetHeap (.ref 0) with
      | (h', some res) => sameBelow 5 hetHeap h' && (reachList 6 h' res).all (fun a => decide (5 ≤ a))
